@@ -2027,10 +2027,15 @@ package nutsdb
 //@   at call Match: assert[C03] concat(string(prefix), string($arg1)) == string(entry.Key)
 //@   at stored es: assert[C03,C04] len(es) > 0 ==> es[len(es) - 1] == entry && hasPrefix(string(entry.Key), string(prefix)) && string(entry.Meta.bucket) == bucket && coff >= offsetNum &&
 //@        (exists r string :: concat(string(prefix), r) == string(entry.Key) && reMatch(rgx, r))
+//@ extern sort.Strings (x)
+//@   ensures forall k int :: 0 <= k && k < len(x) ==> (exists j int :: 0 <= j && j < len(x) && x[k] == old(x[j]))
+//@   modifies elems(x)
 //@ func SortedEntryKeys
-//@   assumed returns the keys of the map in ascending order together with the map (sort.Strings)
 //@   ensures es == m && (forall k int :: 0 <= k && k < len(keys) ==> has(m, keys[k]))
 //@   modifies nothing
+//@   loops 1
+//@   loop 1: modifies nothing
+//@   loop 1: invariant m == old(m) && sinceLoop(keys) && (forall k int :: 0 <= k && k < len(keys) ==> has(m, keys[k]))
 
 //@ func Tx.getByHintBPTSparseIdxInMem
 //@   requires[C14] lockMode >= 1
